@@ -44,7 +44,7 @@ fn resolve(cuts: &Value, sizes: &[usize]) -> Result<Vec<usize>, String> {
 }
 
 /// Write `bytes` cut at `cuts`; between two writes wait until the reader has drained the socket.
-fn write_planned(w: &mut TcpStream, probe: &TcpStream, bytes: &[u8], cuts: &[usize]) -> Result<(), String> {
+fn write_planned(w: &mut TcpStream, probe: TcpStream, bytes: &[u8], cuts: &[usize]) -> Result<(), String> {
 	w.set_nodelay(true).map_err(|e| e.to_string())?;
 	let mut start = 0;
 	let mut ends: Vec<usize> = cuts.iter().map(|c| (*c).min(bytes.len())).collect();
@@ -56,13 +56,15 @@ fn write_planned(w: &mut TcpStream, probe: &TcpStream, bytes: &[u8], cuts: &[usi
 		}
 		if i + 1 < ends.len() {
 			let t0 = Instant::now();
-			while unread(probe) > 0 && t0.elapsed() < Duration::from_secs(2) {
+			while unread(&probe) > 0 && t0.elapsed() < Duration::from_secs(2) {
 				thread::yield_now();
 			}
 			thread::sleep(Duration::from_millis(1));
 		}
 	}
 	let _ = w.shutdown(Shutdown::Write);
+	// our handle on the reader's socket must go, or that socket never closes
+	drop(probe);
 	// keep our end until the reader is gone
 	let _ = w.set_read_timeout(Some(Duration::from_secs(20)));
 	let mut buf = [0u8; 512];
@@ -111,7 +113,7 @@ fn one(role: &str, rv: u32, follow: Vec<u8>, cuts_sym: Value, follow_sizes: Vec<
 			sizes.extend(follow_sizes);
 			bytes.extend_from_slice(&follow);
 			let cuts = resolve(&cuts_sym, &sizes)?;
-			write_planned(&mut s, &probe, &bytes, &cuts)
+			write_planned(&mut s, probe, &bytes, &cuts)
 		});
 		let r = catch_unwind(AssertUnwindSafe(|| {
 			hs.initiate(
@@ -155,7 +157,7 @@ fn one(role: &str, rv: u32, follow: Vec<u8>, cuts_sym: Value, follow_sizes: Vec<
 			sizes.extend(follow_sizes);
 			bytes.extend_from_slice(&follow);
 			let cuts = resolve(&cuts_sym, &sizes)?;
-			write_planned(&mut s, &probe, &bytes, &cuts)
+			write_planned(&mut s, probe, &bytes, &cuts)
 		});
 		let (mut conn, _) = l.accept().map_err(io)?;
 		tx.send(conn.try_clone().map_err(io)?).map_err(|e| e.to_string())?;
